@@ -18,7 +18,7 @@ for d in sorted(glob.glob(os.path.join(ROOT, 'seeded', '*'))):
     try:
         res = {}
         for prop in [meta['property']] + meta.get('also', []):
-            p = subprocess.run([os.path.join(ROOT, 'bin', 'check'), prop], capture_output=True, text=True, cwd=ROOT)
+            p = subprocess.run([os.path.join(ROOT, 'bin', 'check'), prop], capture_output=True, text=True, cwd=ROOT, env=dict(os.environ, VERIF_EVIDENCE_DIR='/tmp/verif-mutant-evidence'))
             viol = re.findall(r'VIOLATION property=\S+ replay=\S*?-([\w.]+)\.json', p.stdout)
             res[prop] = dict(rc=p.returncode, violations=viol[:6], last=p.stdout.strip().splitlines()[-1] if p.stdout.strip() else '')
     finally:
